@@ -635,47 +635,55 @@ func (server *SugarDB) evictKeysWithExpiredTTL(ctx context.Context) error {
 
 	database := ctx.Value("Database").(int)
 
-	// Sample size should be the configured sample size, or the size of the keys with expiry,
+	// Sample size should be the configured sample size, or the number of volatile keys in this database,
 	// whichever one is smaller.
+	volatileKeys := server.keysWithExpiry.keys[database]
 	sampleSize := int(server.config.EvictionSample)
-	if len(server.keysWithExpiry.keys[database]) < sampleSize {
-		sampleSize = len(server.keysWithExpiry.keys)
+	if len(volatileKeys) < sampleSize {
+		sampleSize = len(volatileKeys)
 	}
-	keys := make([]string, sampleSize)
+	keys := make([]string, 0, sampleSize)
 
 	deletedCount := 0
 	thresholdPercentage := 20
 
-	var idx int
-	var key string
-	for i := 0; i < len(keys); i++ {
-		for {
-			// Retry retrieval of a random key until we find a key that is not already in the list of sampled keys.
-			idx = rand.Intn(len(server.keysWithExpiry.keys))
-			key = server.keysWithExpiry.keys[database][idx]
-			if !slices.Contains(keys, key) {
-				keys[i] = key
-				break
-			}
-		}
+	// Sample distinct keys: draw from the keys that have not been sampled yet.
+	candidates := slices.Clone(volatileKeys)
+	for i := 0; i < sampleSize; i++ {
+		idx := rand.Intn(len(candidates))
+		keys = append(keys, candidates[idx])
+		candidates = slices.Delete(candidates, idx, idx+1)
 	}
 	server.keysWithExpiry.rwMutex.RUnlock()
 
-	// Loop through the keys and delete them if they're expired
-	server.storeLock.Lock()
-	defer server.storeLock.Unlock()
-	for _, k := range keys {
-		// Delete the expired key
-		deletedCount += 1
-		if !server.isInCluster() {
-			if err := server.deleteKey(ctx, k); err != nil {
-				return fmt.Errorf("evictKeysWithExpiredTTL -> standalone delete: %+v", err)
+	// Loop through the keys and delete them if they're expired.
+	// The store lock is released before the function calls itself again below.
+	err := func() error {
+		server.storeLock.Lock()
+		defer server.storeLock.Unlock()
+		now := server.clock.Now()
+		for _, k := range keys {
+			// Only a key whose deadline has passed is removed.
+			entry, ok := server.store[database][k]
+			if !ok || entry.ExpireAt == (time.Time{}) || !entry.ExpireAt.Before(now) {
+				continue
 			}
-		} else if server.isInCluster() && server.raft.IsRaftLeader() {
-			if err := server.raftApplyDeleteKey(ctx, k); err != nil {
-				return fmt.Errorf("evictKeysWithExpiredTTL -> cluster delete: %+v", err)
+			// Delete the expired key
+			deletedCount += 1
+			if !server.isInCluster() {
+				if err := server.deleteKey(ctx, k); err != nil {
+					return fmt.Errorf("evictKeysWithExpiredTTL -> standalone delete: %+v", err)
+				}
+			} else if server.isInCluster() && server.raft.IsRaftLeader() {
+				if err := server.raftApplyDeleteKey(ctx, k); err != nil {
+					return fmt.Errorf("evictKeysWithExpiredTTL -> cluster delete: %+v", err)
+				}
 			}
 		}
+		return nil
+	}()
+	if err != nil {
+		return err
 	}
 
 	// If sampleSize is 0, there's no need to calculate deleted percentage.
@@ -686,9 +694,9 @@ func (server *SugarDB) evictKeysWithExpiredTTL(ctx context.Context) error {
 	log.Printf("%d keys sampled, %d keys deleted\n", sampleSize, deletedCount)
 
 	// If the deleted percentage is over 20% of the sample size, execute the function again immediately.
-	if (deletedCount/sampleSize)*100 >= thresholdPercentage {
+	if (deletedCount*100)/sampleSize >= thresholdPercentage {
 		log.Printf("deletion ratio (%d percent) reached threshold (%d percent), sampling again\n",
-			(deletedCount/sampleSize)*100, thresholdPercentage)
+			(deletedCount*100)/sampleSize, thresholdPercentage)
 		return server.evictKeysWithExpiredTTL(ctx)
 	}
 
